@@ -92,3 +92,305 @@ from .c16_limits import RENDER_SPEC, REQ_FIELDS  # noqa
 for _fn, _arg in (('render', 'tile_request'), ('get_info', 'info_request')):
     contract(S + 'TileLayer.' + _fn, props=['C16', 'C10', 'C09'], merge=True,
              trace_extra=[_render_limits])
+
+
+# ======================================================================================================================
+# WMS: authorization decision, filtering of the layer list, global / per-layer limits reach the merger and feature info
+# ======================================================================================================================
+WMS = 'mapproxy.service.wms:'
+cls(WMS + 'WMSServer', fields=dict(
+    root_layer='opaque', layers='opaque', tile_layers='opaque', strict='opaque', attribution='opaque', md='opaque',
+    on_error='opaque', concurrent_layer_renderer='opaque', image_formats='opaque', info_types='opaque', srs='opaque',
+    srs_extents='opaque', max_output_pixels='opaque', max_tile_age='opaque', inspire_md='opaque', request_parser='opaque',
+    fi_transformers='opaque'))
+
+
+def _item_is(res_t, key, val, epochs):
+    """result[key] == val, at any of the epochs the path has seen (see _tile_auth_decision)"""
+    import z3
+    from pyvc.values import opaque_eq_str
+    ck = ('s', key)
+    out = z3.BoolVal(False)
+    for ep in range(0, epochs + 1):
+        f = z3.Function('opaque_item_%s_%d' % (abs(hash(ck)), ep), res_t.sort(), res_t.sort())
+        out = z3.Or(out, opaque_eq_str(f(res_t), z3.StringVal(val)))
+    return out
+
+
+def _wms_auth_decision(ex, st, post, result):
+    """PERMIT_ALL_LAYERS is handed out only when no callback is configured or it said 'full'; otherwise the result is the
+    dictionary built from the callback's per-layer permissions"""
+    import z3
+    from pyvc.values import VSeq, VOpaque
+    cb = [e for e in st.trace if e.kwargs and 'query_extent' in e.kwargs and 'environ' in e.kwargs]
+    permit_all = [e for e in st.trace if False]
+    res0 = result.items[0] if isinstance(result, VSeq) else None
+    is_permit_all = 'PERMIT_ALL_LAYERS' in repr(res0)      # VFunc(class mapproxy.service.wms:PERMIT_ALL_LAYERS)
+    if not cb:
+        ins = [e for i, e in T.evs(st, 'contains')]
+        yield ('wms_no_callback_means_not_configured',
+               z3.And([z3.Not(e.result.t) for e in ins]) if ins else z3.BoolVal(False),
+               "layers are only served without asking when no 'mapproxy.authorize' callback is configured")
+        return
+    full = _item_is(cb[-1].result.t, 'authorized', 'full', st.epoch)
+    yield ('wms_permit_all_only_if_full', z3.Or(z3.BoolVal(not is_permit_all), full),
+           "the permit-all marker is returned only if the callback answered authorized == 'full'")
+    # the callback is asked for the requested feature ('wms.map' / 'wms.featureinfo'), with the query extent
+    yield ('wms_callback_gets_query_extent', z3.BoolVal(cb[-1].kwargs['query_extent'] is post.env['query_extent']),
+           'the callback sees the query extent of this request')
+
+
+def _wms_auth_layer_entry(ex, st, k):
+    """a layer name enters the authorized dictionary only if its permission for the requested feature is True"""
+    import z3
+    from pyvc.values import opaque_is_true, VOpaque
+    evs_ = st.trace[getattr(st, 'iter_start_trace', 0):]
+    sets = [e for e in evs_ if e.name in ('setitem', '__setitem__')]
+    gets = [e for e in evs_ if e.name == 'get' and e.args and e.args[0] is st.env['feature']]
+    goal = z3.BoolVal(True)
+    if sets:
+        goal = z3.BoolVal(bool(gets))
+        for g_ in gets[:1]:
+            goal = z3.And(goal, opaque_is_true(g_.result.t) if isinstance(g_.result, VOpaque) else z3.BoolVal(False))
+    yield ('wms_layer_listed_only_if_permitted', goal,
+           "layers[name] is set only after permissions.get(feature, False) is True was read for that layer")
+
+
+contract(WMS + 'WMSServer.authorized_layers', props=['C10'],
+         types=dict(feature='str', layers='opaque', env='opaque', query_extent='opaque'), returns='tuple[opaque,opt[opaque]]',
+         default_callee='opaque', raises={'RequestError': True},
+         opaque_spec={'get': {'pure': True}, 'load_limited_to': {'pure': True},
+                      'items': {'returns': 'list[tuple[opaque,opaque]]', 'pure': True}},
+         loops={0: dict(inv=[], types={'layers': 'opaque'}, body_trace=[_wms_auth_layer_entry])},
+         trace=[_wms_auth_decision])
+
+
+def _wms_filter_iteration(ex, st, k):
+    """one layer of the list to render: kept only if the authorized dictionary contains its name; a per-layer limit wraps
+    every sub-layer in LimitedLayer with the coverage loaded from THAT layer's limited_to"""
+    import z3
+    from pyvc.values import VOpaque, ObjSort
+    evs_ = st.trace[getattr(st, 'iter_start_trace', 0):]
+    name = st.env['layer_name']
+    auth = st.env['authorized_layers']
+    actual = st.env['actual_layers']
+
+    def same(a, b):
+        return hasattr(a, 't') and hasattr(b, 't') and a.t.eq(b.t)
+    conts = [e for e in evs_ if e.name == 'contains' and same(e.args[0], auth) and same(e.args[1], name)]
+    dels = [e for e in evs_ if e.name == 'delitem' and same(e.args[0], actual) and same(e.args[1], name)]
+    sets = [e for e in evs_ if e.name == 'setitem' and same(e.args[0], actual)]
+    lims = [e for e in evs_ if e.name == 'load_limited_to']
+    wraps = [e for e in evs_ if e.name == 'LimitedLayer' or (e.name == '__init__' and 'LimitedLayer' in str(e.key or e.full))]
+    goal = z3.BoolVal(len(conts) == 1)
+    if conts:
+        goal = z3.And(goal, z3.Or(ex.truth(st, conts[0].result), z3.BoolVal(bool(dels))))
+    yield ('wms_unauthorized_layer_dropped', goal,
+           'a layer whose name is not in the authorized dictionary is removed from the layers to render (or the request fails)')
+    # the limit of THIS layer: authorized_layers[layer_name], at any epoch of the iteration
+    own = [z3.Function('opaque_item2_%d' % ep, ObjSort, ObjSort, ObjSort)(auth.t, name.t) for ep in range(0, st.epoch + 1)]
+    ok = not sets and not wraps and not lims
+    g2 = z3.BoolVal(ok)
+    if sets or wraps or lims:
+        structural = len(lims) == 1 and len(sets) == 1 and bool(wraps) and same(sets[0].args[1], name) and \
+            all(len(w.args) == 2 and w.args[1] is lims[0].result for w in wraps) and isinstance(lims[0].args[0], VOpaque)
+        g2 = z3.BoolVal(bool(structural))
+        if structural:
+            g2 = z3.And(g2, z3.Or([lims[0].args[0].t == o for o in own]))
+    yield ('wms_layer_limit_wraps_layers', g2,
+           "a layer is replaced only by LimitedLayer(sub-layer, load_limited_to(authorized_layers[its own name])) objects")
+    # a limited layer is never left unwrapped: if authorized_layers[name] is not None the replacement happens
+    from pyvc.values import opaque_is_none
+    limited = z3.Or([z3.Not(opaque_is_none(o)) for o in own])
+    kept = z3.And(ex.truth(st, conts[0].result), z3.BoolVal(not dels)) if conts else z3.BoolVal(False)
+    yield ('wms_limited_layer_always_wrapped', z3.Implies(z3.And(kept, z3.And([z3.Not(opaque_is_none(o)) for o in own])), z3.BoolVal(bool(sets))),
+           'an authorized layer with a limited_to entry never reaches the renderer unwrapped')
+
+
+contract(WMS + 'WMSServer.filter_actual_layers', props=['C10'],
+         types=dict(actual_layers='opaque', requested_layers='opaque', authorized_layers='opaque'), returns='none',
+         default_callee='opaque', raises={'RequestError': True},
+         opaque_spec={'load_limited_to': {'pure': True}, 'LimitedLayer': {'pure': True}, 'set': {'pure': True}, 'keys': {'pure': True}},
+         loops={0: dict(inv=[], types={}, body_trace=[_wms_filter_iteration]), 1: dict(inv=[], types={})})
+
+
+# ---- LimitedLayer.get_info: outside the layer's limit no feature info (and no upstream request) ---------------------------
+L = 'mapproxy.layer:'
+cls(L + 'LimitedLayer', fields=dict(_layer='opaque', coverage='opt[opaque]'))
+
+
+def _limited_info(ex, st, post, result):
+    import z3
+    from pyvc.values import eq
+    self_ = post.env['self']
+    q = post.env['query']
+    cov = st.heap[self_.ref]['coverage']
+    inner = [e for i, e in T.evs(st, 'get_info')]
+    conts = [e for i, e in T.evs(st, 'contains') if e.recv is not None and e.recv.t.eq(cov.val.t)]
+    goal = z3.BoolVal(True)
+    if inner:
+        inside = z3.BoolVal(False)
+        for c in conts:
+            ok_args = len(c.args) == 2
+            if ok_args:
+                inside = z3.Or(inside, z3.And(ex.truth(st, c.result), eq(c.args[0], ex.opaque_field_at(st, c, q, 'coord')),
+                                              eq(c.args[1], ex.opaque_field_at(st, c, q, 'srs'))))
+        goal = z3.Or(z3.Not(ex.truth(st, cov)), inside)
+    yield ('limited_layer_info_only_inside', goal,
+           'the wrapped layer is asked for feature info only if there is no limit or the limit contains (query.coord, query.srs)')
+
+
+contract(L + 'LimitedLayer.get_info', props=['C10'],
+         types=dict(query='opaque'), returns='opaque', default_callee='opaque',
+         opaque_fields={'coord': 'opaque', 'srs': 'opaque'}, stable_fields=['coord', 'srs'],
+         opaque_spec={'contains': {'returns': 'bool', 'pure': True}},
+         trace=[_limited_info])
+
+
+# ---- WMSServer.featureinfo: decision order and the request-wide limit ----------------------------------------------------
+def _named(st, *names):
+    return [(i, e) for i, e in enumerate(st.trace) if e.name in names]
+
+
+def _fi_layer_query(ex, st, k):
+    """a layer is asked for feature info only after the authorization decision was applied to the layer list, and never
+    when the request-wide limit does not contain the query point"""
+    import z3
+    from pyvc.values import eq, VSeq
+    n0 = getattr(st, 'iter_start_trace', 0)
+    gets = [(i, e) for i, e in enumerate(st.trace) if i >= n0 and e.name == 'get_info']
+    auth = _named(st, 'WMSServer.authorized_layers')
+    filt = _named(st, 'WMSServer.filter_actual_layers')
+    goal = z3.BoolVal(True)
+    if gets:
+        ok = len(auth) == 1 and len(filt) == 1 and auth[0][0] < filt[0][0] < gets[0][0] and \
+            isinstance(auth[0][1].result, VSeq) and len(filt[0][1].args) == 4 and \
+            filt[0][1].args[-1] is auth[0][1].result.items[0] and filt[0][1].args[1] is st.env['actual_layers']
+        goal = z3.BoolVal(bool(ok))
+        if ok:
+            cov = auth[0][1].result.items[1]
+            q = st.env['query']
+            inside = z3.BoolVal(False)
+            for i, c in _named(st, 'contains'):
+                if c.recv is not None and c.recv.t.eq(cov.val.t) and len(c.args) == 2 and i < gets[0][0]:
+                    inside = z3.Or(inside, z3.And(ex.truth(st, c.result), eq(c.args[0], ex.opaque_field_at(st, c, q, 'coord')),
+                                                  eq(c.args[1], ex.opaque_field_at(st, c, q, 'srs'))))
+            goal = z3.And(goal, z3.Or(z3.Not(ex.truth(st, cov)), inside))
+    yield ('featureinfo_after_authorization_inside_limit', goal,
+           'get_info is reached only after authorized_layers -> filter_actual_layers(actual_layers, .., that decision), and '
+           'only if there is no request-wide limit or it contains (query.coord, query.srs)')
+
+
+contract(WMS + 'WMSServer.featureinfo', props=['C10'],
+         types=dict(request='opaque'), returns='opaque', default_callee='opaque', raises={'RequestError': True},
+         opaque_fields={'coord': 'opaque', 'srs': 'opaque'}, stable_fields=['coord', 'srs'],
+         opaque_spec={'contains': {'returns': 'bool', 'pure': True}, 'InfoQuery': {'pure': True}, 'SRS': {'pure': True},
+                      'odict': {'pure': True}, 'keys': {'pure': True}, 'values': {'pure': True}, 'get': {'pure': True},
+                      'info_layers_for_query': {'returns': 'list[tuple[opaque,opaque]]', 'pure': True},
+                      'check_featureinfo_request': {'raises': ['RequestError']},
+                      'combine_docs': {'returns': 'tuple[opaque,opaque]', 'pure': True}},
+         opaque=['check_featureinfo_request'],
+         loops={0: dict(inv=[], types={'actual_layers': 'opaque'}), 1: dict(inv=[], types={'actual_layers': 'opaque'}),
+                2: dict(inv=[], types={'info_layers': 'opaque'}),
+                3: dict(inv=[], types={'infos': 'opaque'}, body_trace=[_fi_layer_query])})
+
+
+# ---- WMSServer.map: the decision reaches the renderer, the request-wide limit reaches the merger with the rendered extent --
+def _map_protocol(ex, st, post, result):
+    import z3
+    from pyvc.values import eq, VSeq
+    auth = _named(st, 'WMSServer.authorized_layers')
+    filt = _named(st, 'WMSServer.filter_actual_layers')
+    rend = _named(st, 'LayerRenderer')
+    merges = _named(st, 'merge')
+    if not merges:
+        return      # blank image outside the SRS extent: nothing is rendered at all
+    ok = len(auth) == 1 and len(filt) == 1 and len(rend) == 1 and len(merges) == 1 and \
+        auth[0][0] < filt[0][0] < rend[0][0] < merges[0][0] and isinstance(auth[0][1].result, VSeq) and \
+        len(filt[0][1].args) == 4 and filt[0][1].args[-1] is auth[0][1].result.items[0]
+    yield ('map_authorization_before_rendering', z3.BoolVal(bool(ok)),
+           'authorized_layers -> filter_actual_layers(.., that decision) -> LayerRenderer -> merge, each exactly once')
+    if not ok:
+        return
+    m = merges[0][1]
+    q = rend[0][1].args[1]          # the query that is rendered
+    cov = auth[0][1].result.items[1]
+    g = z3.BoolVal('coverage' in m.kwargs and 'bbox' in m.kwargs and 'size' in m.kwargs)
+    if 'coverage' in m.kwargs and 'bbox' in m.kwargs and 'size' in m.kwargs:
+        g = z3.And(eq(m.kwargs['coverage'], cov),
+                   eq(m.kwargs['bbox'], ex.opaque_field_at(st, m, q, 'bbox')), eq(m.kwargs['size'], ex.opaque_field_at(st, m, q, 'size')))
+    yield ('map_global_limit_with_rendered_extent', g,
+           'merge(.., coverage=the request-wide limit of the decision, bbox/size = those of the query that was rendered): the '
+           'limit mask is computed for the extent of the image it is applied to')
+    # the callback was asked about the rendered extent
+    qe = auth[0][1].kwargs.get('query_extent') if auth[0][1].kwargs else None
+    g3 = z3.BoolVal(False)
+    if isinstance(qe, VSeq) and qe.concrete and len(qe.items) == 2:
+        g3 = eq(qe.items[1], ex.opaque_field_at(st, auth[0][1], q, 'bbox'))
+    yield ('map_decision_for_rendered_extent', g3, 'the authorization callback sees the bbox of the query that is rendered')
+
+
+contract(WMS + 'WMSServer.map', props=['C10'],
+         types=dict(map_request='opaque'), returns='opaque', default_callee='opaque', raises={'RequestError': True, 'IOError': True},
+         opaque_fields={'bbox': 'opaque', 'size': 'opaque', 'srs': 'opaque'}, stable_fields=['bbox', 'size', 'srs'],
+         opaque_spec={'MapQuery': {'pure': True, 'fields': {'bbox': 'arg0', 'size': 'arg1', 'srs': 'arg2'}}, 'SRS': {'pure': True},
+                      'MapExtent': {'pure': True}, 'contains': {'returns': 'bool', 'pure': True}, 'intersection': {'pure': True},
+                      'bbox_position_in_image': {'returns': 'tuple[opaque,opaque,opaque]', 'pure': True},
+                      'odict': {'pure': True}, 'keys': {'pure': True}, 'values': {'pure': True}, 'get': {'pure': True},
+                      'lower': {'pure': True}, 'copy': {'pure': True}, 'renders_query': {'returns': 'bool', 'pure': True},
+                      'is_opaque': {'returns': 'bool', 'pure': True},
+                      'map_layers_for_query': {'returns': 'list[tuple[opaque,opaque]]', 'pure': True},
+                      'check_map_request': {'raises': ['RequestError']}, 'LayerRenderer': {'pure': True},
+                      'LayerMerger': {'pure': True}, 'render': {'pure': True}, 'add': {'pure': True}, 'merge': {'pure': True},
+                      'update_query_with_fwd_params': {'pure': True}, 'attribution_image': {'pure': True},
+                      'SubImageSource': {'pure': True}, 'decorate_img': {'pure': True}, 'GeoReference': {'pure': True},
+                      'as_buffer': {'raises': ['IOError']}, 'Response': {'pure': True}, 'BlankImageSource': {'pure': True}},
+         opaque=['check_map_request', 'update_query_with_fwd_params', 'decorate_img', 'cache_headers', 'make_conditional', 'Response',
+                 'merge', 'add', 'render', 'LayerMerger', 'LayerRenderer', 'MapQuery', 'bbox_position_in_image', 'as_buffer',
+                 'renders_query', 'is_opaque', 'map_layers_for_query', 'contains', 'intersection'],
+         loops={0: dict(inv=[], types={'actual_layers': 'opaque'}), 1: dict(inv=[], types={'actual_layers': 'opaque'}),
+                2: dict(inv=[], types={'render_layers': 'opaque'})},
+         trace=[_map_protocol])
+
+
+# ---- GeomCoverage: the point / rectangle / geometry tested against the limit is in the limit's SRS -----------------------
+G = 'mapproxy.util.coverage:'
+cls(G + 'GeomCoverage', fields=dict(geom='opaque', bbox='opaque', srs='opaque', clip='opaque', _prep_lock='opaque',
+                                    _prepared_geom='opaque', _prepared_counter='int', _prepared_max='int'))
+
+
+def _in_coverage_srs(ex, st, post, result):
+    import z3
+    from pyvc.values import eq
+    self_ = post.env['self']
+    geom, srs = post.env['geom'], post.env['srs']
+    own = st.heap[self_.ref]['srs']
+    differs = z3.Not(eq(srs, own))
+    tr = _named(st, 'transform_to', 'transform_bbox_to', 'transform_geometry')
+    shp = _named(st, 'Point', 'bbox_polygon')
+    # which value is handed on: the transformed one if a transformation happened, else the input
+    cur = tr[-1][1].result if tr else geom
+    goal = z3.BoolVal(len(tr) <= 1)
+    if tr:
+        t = tr[0][1]
+        # from the request SRS to the coverage SRS, applied to the input
+        if t.name == 'transform_geometry':
+            goal = z3.And(goal, eq(t.args[0], srs), eq(t.args[1], own), z3.BoolVal(t.args[2] is geom))
+        else:
+            goal = z3.And(goal, z3.BoolVal(t.recv is not None and t.recv.t.eq(srs.t)), eq(t.args[0], own), z3.BoolVal(t.args[1] is geom))
+    else:
+        goal = z3.And(goal, z3.Not(differs))
+    if shp:
+        goal = z3.And(goal, z3.BoolVal(len(shp) == 1 and shp[0][1].args[0] is cur and result is shp[0][1].result))
+    else:
+        goal = z3.And(goal, z3.BoolVal(result is cur))
+    yield ('tested_shape_is_in_coverage_srs', goal,
+           'if the SRS differ the input is transformed from the request SRS to the coverage SRS, and the shape that is '
+           'tested (Point / polygon / geometry) is built from the TRANSFORMED coordinates; without a difference nothing is transformed')
+
+
+contract(G + 'GeomCoverage._geom_in_coverage_srs', props=['C10', 'C17'],
+         types=dict(geom='opaque', srs='opaque'), returns='opaque', default_callee='opaque',
+         opaque_spec={'transform_to': {'pure': True}, 'transform_bbox_to': {'pure': True}, 'transform_geometry': {'pure': True},
+                      'Point': {'pure': True}, 'bbox_polygon': {'pure': True}},
+         trace=[_in_coverage_srs])
